@@ -23,7 +23,9 @@ TRANS = {
     "VonMisesDistribution": {"kappa": "shape", "mu": "none"},
 }
 GRID = {
-    "WeibullDistribution": [dict(alpha=a, beta=b, gamma=g) for a in (0.3, 2.0, 8.0) for b in (0.8, 1.5, 3.0) for g in (0.0, 0.5)],
+    "WeibullDistribution": [dict(alpha=a, beta=b, gamma=g) for a in (0.3, 2.0, 8.0) for b in (0.8, 1.5, 3.0) for g in (0.0, 0.5)]
+                           # negative location: part of the sample is <= 0 (e.g. anomalies, demeaned series)
+                           + [dict(alpha=2.0, beta=b, gamma=-0.5) for b in (1.5, 3.0)],
     "LogNormalDistribution": [dict(mu=m, sigma=s) for m in (-1.0, 0.5, 2.0) for s in (0.2, 0.7)],
     "NormalDistribution": [dict(mu=m, sigma=s) for m in (-1.0, 2.0, 8.0) for s in (0.3, 2.0)],
     "LogNormalNormFitDistribution": [dict(mu_norm=m, sigma_norm=s) for m in (0.5, 3.0) for s in (0.2, 1.5)],
@@ -111,6 +113,13 @@ def run_case(case):
                     r_ = res.get(c_)
                     ok_ = ok_ and r_ is not None and all(abs(r_[k_] - v_) <= 1e-10 * max(abs(v_), 1e-12) for k_, v_ in (("alpha", a_), ("beta", b_), ("gamma", g_)))
                 sig["fit_equals_direct_scipy_optimiser_result"] = bool(ok_)
+                # is the start location at or above the smallest observation (zero likelihood at the start)?
+                below_ = False
+                for c_ in cs:
+                    st_ = start_for(c_)
+                    g0_ = dict(zoo.FAMILIES[fam][0](**dict(st_ or {})).parameters)["gamma"]
+                    below_ = below_ or bool(np.min(data * c_) <= g0_)
+                sig["sample_reaches_below_start_location"] = below_
         except Exception as e:   # a witness that cannot be computed never matches a known finding
             detail = dict(detail, witness_error=f"{type(e).__name__}: {e}"[:160])
         if not any(v["sig"] == sig for v in viol):
